@@ -1098,8 +1098,9 @@ def directed_pool() -> dict:
             else:
                 chunks.append([n])
         # reserved PATTERNS meet every kind of member (the decorated member names of the C target -- `<name>_bitpacked_` --
-        # depend on both); the keyword pools rotate through the kinds once
-        rotations = range(len(kinds)) if cls == "pattern" else (0,)
+        # depend on both); every other name meets two consecutive kinds, so that each one appears at least once as an
+        # undecorated member (a bit-packed array hides the name behind its suffix: seeded change C06-C, `restrict`)
+        rotations = range(len(kinds)) if cls == "pattern" else (0, 1)
         for i, ch in ((i + r, ch) for r in rotations for i, ch in enumerate(chunks, r * len(chunks))):
             attrs = [_F(kinds[(i + j) % len(kinds)], n) for j, n in enumerate(ch)]
             # after every candidate name: a variable-length array (size_t count; std::vector) and a primitive (std::uint8_t)
